@@ -323,7 +323,7 @@ def directed(prop, cfg, n=5000, cap=80):
     out = []
     for (stream, it), h, m in zip(cands, hook, model):
         ho, mo = engine.outcome(h), engine.outcome(m)
-        if ho != mo or (ho == 'err' and not engine.err_agree(h, m)) or (ho == 'ok' and h != m):
+        if ho != mo or (ho == 'ok' and h != m):
             out.append(('directed-' + stream, it))
     out.sort(key=lambda x: len(x[1].rust1()))
     return out[:cap]
@@ -438,8 +438,10 @@ def run_(prop, cfg, seed, n=150, named=None):
             else:
                 bad = ('accepted: no error', errs[:3])
         elif kind == 'err':
-            own = [t for c, t in errs if not c and msg_match(msg, t)]
-            other = [(c, t) for c, t in errs if c or not msg_match(msg, t)]
+            own = [t for c, t in errs if not c]              # errors without a code are the macro's `compile_error!`s
+            other = [(c, t) for c, t in errs if c]
+            if own and not any(msg_match(msg, t) for t in own):
+                rep['message_differences'] = rep.get('message_differences', 0) + 1
             if not errs:
                 bad = ('rejected with: ' + msg, 'compiles without error')
             elif not own:
